@@ -91,6 +91,7 @@ type scope struct {
 	closed      atomic.Bool
 	done        chan struct{}
 	wg          sync.WaitGroup
+	closeOnce   sync.Once
 	root        bool
 	testScope   bool
 }
@@ -519,22 +520,35 @@ func (s *scope) Snapshot() Snapshot {
 }
 
 func (s *scope) Close() error {
-	// n.b. Once this flag is set, the next scope report will remove it from
-	//      the registry and clear its metrics.
-	if !s.closed.CAS(false, true) {
+	if !s.root {
+		// n.b. Once this flag is set, the next scope report will remove it
+		//      from the registry and clear its metrics.
+		if s.closed.CAS(false, true) {
+			close(s.done)
+		}
 		return nil
 	}
 
-	close(s.done)
+	// n.b. Closing the root is a barrier: concurrent callers wait until the
+	//      first one has finished, later callers return nil immediately.
+	var err error
+	s.closeOnce.Do(func() {
+		s.closed.Store(true)
+		close(s.done)
 
-	if s.root {
+		// Wait for the reporting goroutine: a periodic pass that is still in
+		// flight finishes first, and nothing reports or flushes after Close
+		// has returned.
+		s.wg.Wait()
+
 		s.reportRegistry()
-		if closer, ok := s.baseReporter.(io.Closer); ok {
-			return closer.Close()
-		}
-	}
+		s.registry.purge()
 
-	return nil
+		if closer, ok := s.baseReporter.(io.Closer); ok {
+			err = closer.Close()
+		}
+	})
+	return err
 }
 
 func (s *scope) clearMetrics() {
